@@ -261,6 +261,39 @@ def case_total(**p):
       sym.new_ctx()
       K = sym.symbolic('w', (3, 1))
       _total_queries(case, label + ':constraint', trc, [K], {}, dict(w=K), dict(fn='linear', cfg=cfg, part='constraint'))
+  elif kind == 'linear-call':
+    # evaluation of every accepted Linear layer: units vs input dims, one-sided / partial / no clipping bounds
+    from tensorflow_lattice.python import linear_layer as LIN
+    case.encoded(LIN.Linear.__init__, LIN.Linear.build, LIN.Linear.call)
+    for dims, units, bounds, bias in itertools.product((1, 2, 3), (1, 2, 3), ('none', 'min', 'max', 'both', 'partial'), (True, False)):
+      imin = dict(none=None, min=[0.0] * dims, max=None, both=[-1.0] * dims, partial=[0.0] + [None] * (dims - 1))[bounds]
+      imax = dict(none=None, min=None, max=[1.0] * dims, both=[2.0] * dims, partial=[None] * (dims - 1) + [1.0])[bounds]
+      cfg = dict(num_input_dims=dims, units=units, input_min=imin, input_max=imax, use_bias=bias)
+      label = 'linear:%s' % json.dumps(cfg, separators=(',', ':'))
+      shp = [dims] if units == 1 else [units, dims]
+
+      def mkc(cfg=cfg, shp=shp):
+        layer = L.Linear(**cfg)
+        layer.build(tf.TensorShape([None] + shp))
+        return layer
+      layer, why = _try(mkc)
+      if layer is None:
+        rejected += 1
+        continue
+      accepted += 1
+      replay_ = dict(fn='linear', cfg=cfg, part='call')
+      try:
+        tcall = Traced(lambda x, layer=layer: layer(x), [tf.TensorSpec([1] + shp, tf.float32)], name='Linear.call')
+        sym.new_ctx()
+        x = sym.symbolic('x', tuple([1] + shp))
+        K = sym.symbolic('w', (dims, units))
+        _total_queries(case, label + ':call', tcall, [x], {layer.kernel.ref(): K}, dict(x=x, w=K), replay_)
+      except (sym.NeedSplit, sym.HarnessError):
+        raise
+      except Exception as e:  # pylint: disable=broad-except
+        # the real call raised while being traced on an accepted configuration
+        case.record('accepted-configuration-is-total[%s:call]' % label, 'sat', kind='main', witness=dict(x=np.zeros([1] + shp).tolist(), w=np.zeros((dims, units)).tolist()),
+                    replay=replay_, sig=dict(query='total', label='linear'), note='%s: %s' % (type(e).__name__, str(e)[:120]))
   elif kind == 'lattice-call':
     # evaluation of an accepted layer on every finite input of a stated box around the lattice, clipped or not
     from tensorflow_lattice.python import lattice_layer as LL, lattice_lib as ll
@@ -349,7 +382,7 @@ def case_total(**p):
       _total_queries(case, label + ':constraint', trc, [K], {layer.scale.ref(): S}, dict(k=K, s=S), dict(fn='kfl', cfg=cfg, part='constraint'))
   case.meta.update(accepted=accepted, rejected=rejected)
   case.record('twin:some-configuration-accepted', 'sat' if accepted else 'unsat', expect='sat', kind='twin')
-  if kind != 'lattice-call':
+  if kind not in ('lattice-call', 'linear-call'):
     case.record('twin:some-configuration-rejected', 'sat' if rejected else 'unsat', expect='sat', kind='twin')
   return case
 
@@ -612,6 +645,8 @@ def replay(r):
   layer = cls(**cfg)
   shape = dict(lattice=[None, len(cfg.get('lattice_sizes', [0, 0]))] if rp['fn'] == 'lattice' else None, pwl=[None, 1], linear=[None, cfg.get('num_input_dims', 2)],
                categorical=[None, 1], kfl=[None, 2])[rp['fn']]
+  if rp['fn'] == 'linear' and cfg.get('units', 1) > 1:
+    shape = [None, cfg['units'], cfg.get('num_input_dims', 2)]
   layer.build(tf.TensorShape(shape))
   try:
     if rp['fn'] == 'kfl':
@@ -635,6 +670,7 @@ def cases(tier, seed):
   for kind, extra in (('lattice', dict(sizes=[2, 2])), ('lattice', dict(sizes=[3, 2])), ('pwl', {}), ('linear', {}), ('categorical', {}), ('kfl', {})):
     nm = 'total-%s%s' % (kind, 'x'.join(map(str, extra.get('sizes', []))))
     out.append(dict(name=nm, fn='case_total', params=dict(name=nm, layer=kind, **extra), cap=1800))
+  out.append(dict(name='total-linear-call', fn='case_total', params=dict(name='total-linear-call', layer='linear-call'), cap=1200))
   for sizes in ([3], [2, 3]):
     nm = 'total-lattice-call%s' % 'x'.join(map(str, sizes))
     out.append(dict(name=nm, fn='case_total', params=dict(name=nm, layer='lattice-call', sizes=sizes), cap=1800))
